@@ -256,9 +256,27 @@ package coroutines
 //@ requires c != nil && r != nil && r.SearchPromises != nil && r.SearchPromises.Id != "" && r.SearchPromises.Limit > 0 && r.SearchPromises.States != nil
 //@ loop 1 invariant 0 <= K && K < len(promises) ==> promises[K] != nil && (len(awaiting) == 0 && promises[K].State == promise.Pending ==> now0() < promises[K].Timeout)
 //@ loop 1 invariant len(promises) <= rangeindex1 + 1 && len(awaiting) >= 0
+//@ site return assert result0 != nil && result0.SearchPromises != nil && result != nil && len(awaiting) == 0 ==> (result0.SearchPromises.Cursor != nil) == (result.RowsReturned == r.SearchPromises.Limit)
+//@ site return assert result0 != nil && result0.SearchPromises != nil && result != nil && len(awaiting) == 0 && result0.SearchPromises.Cursor != nil ==> *result0.SearchPromises.Cursor.Next.SortId == result.LastSortId
 //@ ensures (res != nil) != (err != nil)
 //@ ensures err == nil ==> res.Kind == t_api.SearchPromises && res.SearchPromises != nil && res.SearchPromises.Status == t_api.StatusOK
 //@ ensures err == nil ==> len(res.SearchPromises.Promises) <= r.SearchPromises.Limit
 //@ ensures err == nil && 0 <= K && K < len(res.SearchPromises.Promises) ==> res.SearchPromises.Promises[K] != nil
 //@ ensures err == nil && 0 <= K && K < len(res.SearchPromises.Promises) && res.SearchPromises.Promises[K].State == promise.Pending ==> linearizes(T < res.SearchPromises.Promises[K].Timeout)
 //@ ensures err == nil && res.SearchPromises.Cursor != nil ==> res.SearchPromises.Cursor.Next != nil && res.SearchPromises.Cursor.Next.Id == r.SearchPromises.Id && res.SearchPromises.Cursor.Next.Limit == r.SearchPromises.Limit && sameslice(res.SearchPromises.Cursor.Next.States, r.SearchPromises.States) && res.SearchPromises.Cursor.Next.Tags == r.SearchPromises.Tags && res.SearchPromises.Cursor.Next.SortId != nil
+
+//@ func SearchSchedules
+//@ props C14
+//@ ghostdb coroutine
+//@ nopanic C13
+//@ ghost K int
+//@ requires c != nil && r != nil && r.SearchSchedules != nil && r.SearchSchedules.Id != "" && r.SearchSchedules.Limit > 0
+//@ loop 1 invariant 0 <= K && K < len(schedules) ==> schedules[K] != nil
+//@ site return assert result0 != nil && result0.SearchSchedules != nil ==> (result0.SearchSchedules.Cursor != nil) == (result.RowsReturned == r.SearchSchedules.Limit)
+//@ site return assert result0 != nil && result0.SearchSchedules != nil && result0.SearchSchedules.Cursor != nil ==> *result0.SearchSchedules.Cursor.Next.SortId == result.LastSortId
+//@ loop 1 invariant len(schedules) <= rangeindex1 + 1
+//@ ensures (res != nil) != (err != nil)
+//@ ensures err == nil ==> res.Kind == t_api.SearchSchedules && res.SearchSchedules != nil && res.SearchSchedules.Status == t_api.StatusOK
+//@ ensures err == nil ==> len(res.SearchSchedules.Schedules) <= r.SearchSchedules.Limit
+//@ ensures err == nil && 0 <= K && K < len(res.SearchSchedules.Schedules) ==> res.SearchSchedules.Schedules[K] != nil
+//@ ensures err == nil && res.SearchSchedules.Cursor != nil ==> res.SearchSchedules.Cursor.Next != nil && res.SearchSchedules.Cursor.Next.Id == r.SearchSchedules.Id && res.SearchSchedules.Cursor.Next.Limit == r.SearchSchedules.Limit && res.SearchSchedules.Cursor.Next.Tags == r.SearchSchedules.Tags && res.SearchSchedules.Cursor.Next.SortId != nil
